@@ -19,6 +19,9 @@ func init() {
 			"Holds for every loss point and loss kind because call sites, not executions, are enumerated. NOT decided: promptness in wall-clock terms; nil-pointer panics inside a transport implementation after loss.",
 		Assumptions: []string{"a failing transport reports through its error result", "user callbacks/OnOpen functions are outside the library"},
 		Mutants: []Mutant{
+			{ID: "C06-timeout-errors-swallowed", Desc: "Transport.read turns read errors that look like timeouts into empty reads (function with a deferred unlock)", Rule: "C06/propagate",
+				Edits: []Edit{{File: "transport/transport.go", Old: "\tdefer t.implLock.Unlock()\n\n\treturn t.Impl.Read(n)", New: "\tdefer t.implLock.Unlock()\n\n\tb, err := t.Impl.Read(n)\n\tif err != nil {\n\t\tif errors.Is(err, ErrTimeoutLike) {\n\t\t\treturn nil, nil\n\t\t}\n\n\t\treturn nil, err\n\t}\n\n\treturn b, nil"},
+					{File: "transport/transport.go", Old: "func (t *Transport) read(n int) ([]byte, error) {", New: "// ErrTimeoutLike marks errors treated as an empty read.\nvar ErrTimeoutLike = errors.New(\"timeout\")\n\nfunc (t *Transport) read(n int) ([]byte, error) {"}}},
 			{ID: "C06-retry-on-error", Desc: "ReadUntilAnyPrompt sleeps and retries on a read error", Rule: "C06/propagate",
 				Edits: []Edit{{File: "channel/read.go", Old: "\t\tnb, err := c.Read()\n\t\tif err != nil {\n\t\t\treturn nil, err\n\t\t}\n\n\t\tif nb == nil {\n\t\t\ttime.Sleep(c.ReadDelay)\n\n\t\t\tcontinue\n\t\t}\n\n\t\trb = append(rb, nb...)\n\n\t\tprb := processReadBuf(rb, c.PromptSearchDepth)", New: "\t\tnb, err := c.Read()\n\t\tif err != nil {\n\t\t\ttime.Sleep(c.ReadDelay)\n\n\t\t\tcontinue\n\t\t}\n\n\t\tif nb == nil {\n\t\t\ttime.Sleep(c.ReadDelay)\n\n\t\t\tcontinue\n\t\t}\n\n\t\trb = append(rb, nb...)\n\n\t\tprb := processReadBuf(rb, c.PromptSearchDepth)"}}},
 			{ID: "C06-netconf-drops-error", Desc: "NETCONF reader drops the channel error", Rule: "C06/propagate",
